@@ -271,6 +271,56 @@ func ruleFunnelOnce(r *Run) {
 				}
 			}
 			r.CheckT("E5", handle.Name+":join-goroutines", waited, handle.Body.Pos(), path, "the handler returns only after its sender and receiver goroutines ended (wg.Wait)")
+			// the wait group counts exactly the goroutines started: Add(1) per go statement, and each of
+			// them reports Done when it ends (deferred, or after its last call), not when it starts
+			adds, spawned := 0, 0
+			for _, ev := range path.Events {
+				if ev.Kind == EvCall {
+					if f, ok := ev.Callee.(*types.Func); ok && f.FullName() == "(*sync.WaitGroup).Add" && len(ev.Call.Args) == 1 {
+						tv := ev.Fn.Info().Types[ev.Call.Args[0]]
+						if tv.Value != nil && tv.Value.ExactString() == "1" {
+							adds++
+						} else {
+							adds += 1000
+						}
+					}
+				}
+				if ev.Kind == EvGo && ev.Lit != nil {
+					lf := r.P.Lits[ev.Lit]
+					if lf == nil {
+						continue
+					}
+					okDone := true
+					nDone := 0
+					for _, lp := range r.Paths(lf) {
+						lastCall, doneIdx, deferred := -1, -1, false
+						for i, le := range lp.Events {
+							f, _ := le.Callee.(*types.Func)
+							isDone := f != nil && f.FullName() == "(*sync.WaitGroup).Done"
+							if le.Kind == EvDefer && isDone {
+								deferred = true
+								nDone++
+							}
+							if le.Kind == EvCall && le.Depth == 0 {
+								if isDone {
+									doneIdx = i
+									nDone++
+								} else {
+									lastCall = i
+								}
+							}
+						}
+						if !deferred && !(doneIdx >= 0 && doneIdx > lastCall) {
+							okDone = false
+						}
+					}
+					if nDone > 0 {
+						spawned++
+						r.CheckT("E5", handle.Name+":done-when-goroutine-ends", okDone, ev.Pos, path, "a goroutine of the connection reports wg.Done when it ends (deferred, or after its last call): reporting earlier lets the handler return while the goroutine still runs")
+					}
+				}
+			}
+			r.CheckT("E5", handle.Name+":wait-group-balanced", adds == spawned && adds >= 1, handle.Body.Pos(), path, "the wait group is incremented by one for each goroutine that reports Done (%d increments, %d goroutines): a surplus increment makes Wait block forever, a missing one lets the handler return early", adds, spawned)
 		}
 	}
 	r.Floor("E5", "paths through the disconnect arm", nArm, 1)
@@ -881,6 +931,51 @@ func rulePanicContainment(r *Run) {
 		}
 	}
 	r.Floor("G2", "deferred closes of channels with foreign senders", n, 1)
+	// a recovered panic is reported to the caller as an error (named error result assigned in the
+	// recovering closure), so that the connection loop ends the connection through the disconnect
+	// funnel instead of carrying on with whatever state the panic left behind
+	nRec := 0
+	for _, f := range r.P.All {
+		if f.Decl == nil || !hasDeferredRecover(f) || !r.reachableFrom(f)[m.Dispatch] {
+			continue
+		}
+		nRec++
+		results := map[types.Object]bool{}
+		if f.Decl.Type.Results != nil {
+			for _, fld := range f.Decl.Type.Results.List {
+				for _, nm := range fld.Names {
+					if obj := f.Info().Defs[nm]; obj != nil && isErrorType(obj.Type()) {
+						results[obj] = true
+					}
+				}
+			}
+		}
+		reported := false
+		for _, st := range f.Body.List {
+			ds, ok := st.(*ast.DeferStmt)
+			if !ok {
+				continue
+			}
+			lit, ok := ast.Unparen(ds.Call.Fun).(*ast.FuncLit)
+			if !ok {
+				continue
+			}
+			ast.Inspect(lit.Body, func(nd ast.Node) bool {
+				as, ok := nd.(*ast.AssignStmt)
+				if !ok || len(as.Lhs) != len(as.Rhs) {
+					return true
+				}
+				for k, l := range as.Lhs {
+					if id, ok := ast.Unparen(l).(*ast.Ident); ok && results[f.Info().Uses[id]] && !isNilIdent(f.Info(), as.Rhs[k]) {
+						reported = true
+					}
+				}
+				return true
+			})
+		}
+		r.Check("G2", f.Name+":recovered-panic-reported", reported, f.Body.Pos(), "%s recovers a panic raised while a client message is handled and reports it as its error result: the caller ends the connection through the normal disconnect path (a swallowed panic leaves the connection running on inconsistent state)", f.Name)
+	}
+	r.Floor("G2", "recovering functions on the message path", nRec, 1)
 }
 
 func (r *Run) calleesAtDefer(ev Event) []*Func {
